@@ -1,15 +1,18 @@
 #!/bin/bash
-# usage: tools/try_mutation.sh <patch.diff> <ID> [<ID>...]   -- applies patch to /repo, runs quick checks, reverts
+# usage: tools/try_mutation.sh <patch.diff> <ID> [<ID>...]   -- applies patch to $REPO (default /repo), runs quick checks, reverts
+# (run it from a snapshot of /verif whose harness/Cargo.toml points at $REPO to stay clear of work in /repo)
 set -u
 patch="$1"; shift
-cd /repo && git apply "$patch" || { echo "APPLY FAILED"; exit 9; }
-cd /verif
+here="$(cd "$(dirname "$0")/.." && pwd)"
+REPO=${REPO:-/repo}
+git -C "$REPO" apply "$patch" || { echo "APPLY FAILED"; exit 9; }
+cd "$here"
 for id in "$@"; do
   out=$(./check "$id" --tier quick --seed ${SEED:-11} 2>&1)
   code=$?
   echo "== $id exit=$code :: $(echo "$out" | grep -E "quick:|BUILD-FAILED" | tail -1)"
   echo "$out" | grep -E "signature=" | sort | uniq -c | sort -rn | head -4
 done
-git -C /repo apply -R "$patch" || echo "REVERT FAILED"
-git -C /repo status --short | head -3
-./check --build >/dev/null 2>&1
+git -C "$REPO" apply -R "$patch" || echo "REVERT FAILED"
+git -C "$REPO" status --short | head -3
+[ "${NOREBUILD:-}" = 1 ] || ./check --build >/dev/null 2>&1
